@@ -256,6 +256,10 @@ inductive Op where
   | ask (n : Nat) (fitted : Bool) (randomPts : Bool)
   /-- `tell`; `fit`: a surrogate is fitted and the next point computed -/
   | tell (fit : Bool)
+  /-- `Optimizer.update_next()` (CBO: ask called again before any tell, or a told batch that only held ignored
+  failures): `opt = self.copy(random_state=self.rng)` — a throw-away copy that SHARES the optimizer's generator,
+  runs its constructor and, when `fitted`, one fitting step -/
+  | refresh (fitted : Bool)
 
 def dimForks (r : Nat) : List Nat → List Instr
   | [] => []
@@ -289,6 +293,10 @@ def draws (site r : Nat) : Nat → List Instr
 
 def opProgram (o : Opts) : Op → List Instr
   | .tell fit => if fit then fitStep o 0 else []
+  | .refresh fitted =>
+    match o.search with
+    | .cbo => optimizerInit o 0 ++ (if fitted then fitStep o 0 else [])
+    | _ => []
   | .ask n fitted randomPts =>
     match o.search with
     | .random => [.draw 110 (.seeded 3), .output]
@@ -340,6 +348,7 @@ structure ModelSite where
 
 def modelSites : List ModelSite := [
   ⟨0, "Search.__init__", "rng-ctor", "np.random.RandomState(", 1, "useSeed 0"⟩,
+  ⟨0, "Search.__init__", "owns-state", "copy.deepcopy(problem)", 1, "the search owns a private copy of the problem: ConfigSpace's generator (stream 3) is not shared with the caller's problem or with other searches"⟩,
   ⟨0, "CBO.__init__", "rng-method", "self._random_state.randint(", 1, "fork 0 → 1 (surrogate seed)"⟩,
   ⟨0, "Optimizer.__init__", "crs", "check_random_state(random_state)", 1, "Optimizer.rng is the generator it is given (alias of 0, or the copy's 6)"⟩,
   ⟨0, "Optimizer.__init__", "rng-method", "self.rng.randint(", 2, "fork r → 2 (cook_estimator), fork r → 4 (initial design)"⟩,
@@ -376,7 +385,8 @@ def modelSites : List ModelSite := [
 def coreFuncs : List String := [
   "Search.__init__", "CBO.__init__", "RandomSearch.__init__", "RandomSearch._ask",
   "RegularizedEvolution.__init__", "RegularizedEvolution._ask", "Optimizer.__init__", "Optimizer.ask",
-  "Optimizer._ask_random_points", "Optimizer._tell", "Optimizer.copy", "Optimizer._moo_scalarize",
+  "Optimizer._ask_random_points", "Optimizer._tell", "Optimizer.copy", "Optimizer.update_next", "Optimizer._moo_scalarize",
+  "MoScalarFunction.__init__",
   "Space.rvs", "_sample_dimension", "gaussian_mes", "_gaussian_acquisition", "MoScalarFunction.update_weight"]
 
 /-- sites in core functions that the hand model deliberately leaves out (func, pattern, why) -/
@@ -386,6 +396,7 @@ def notModelled : List (String × String × String) := [
   ("Space.rvs", "set(hps_names) - set(sdv_names)", "transfer learning; classified outOfScope by the reachability map"),
   ("Space.rvs", "dim.rvs(n_samples=n_samples, random_state=rng)", "transfer learning on a flat space"),
   ("Search.__init__", "np.random.RandomState()", "random_state=None: outside the property (see unseededInit)"),
+  ("MoScalarFunction.__init__", "np.random.RandomState(", "MoScalarFunction is always given the optimizer's RandomState (alias of the root); its int / None branches are not taken"),
   ("Optimizer._tell", "gaussian_acquisition_1D", "function value handed to fmin_l_bfgs_b; the generator travels in its args tuple"),
   ("Search.__init__", "time.strftime", "clock: names a backup file")]
 
